@@ -12,7 +12,7 @@ OBLIGATIONS = [
        bounds="2 sequences x 3..4 (5) columns and 3 sequences x 3 (4) columns, EVERY character symbolic over '-' and the 20 amino acid letters: trace entry = -1 at a gap, else the number of non-gap characters before it; the gapped strings rebuilt from that trace and the gap-free sequences equal the input"),
     SX("sx_alignment", "sx_c11", "ob_alignment", cls="E", quick=300, thorough=1800, parts={"quick": 7, "thorough": 9},
        functions=[A + "alignment.py:Alignment.get_gapped_sequences/trace_from_strings/__getitem__, get_codes, get_symbols, get_sequence_identity, get_pairwise_sequence_identity, score, find_terminal_gaps, remove_terminal_gaps, remove_gaps"],
-       bounds="every trace of 1..4 (thorough 1..5) columns over 2 sequences and 1..3 (1..4) columns over 3 sequences (every non-empty advance pattern per column): all conversions and helpers vs column-by-column recomputation; score with linear/affine penalties and both terminal settings"),
+       bounds="every trace of 1..4 (thorough 1..5) columns over 2 sequences and 1..3 (1..4) columns over 3 sequences (every non-empty advance pattern per column): all conversions and helpers vs column-by-column recomputation; score with linear/affine penalties and both terminal settings; gapped strings and str() also of DERIVED alignments whose rows skip sequence positions (remove_gaps, every other column, index-array and boolean column selections)"),
     SX("sx_cigar", "sx_c11", "ob_cigar", cls="E", quick=600, thorough=3000, parts={"quick": 16, "thorough": 16},
        functions=[A + "cigar.py:write_alignment_to_cigar, read_alignment_from_cigar, _find_clipped_bases, _aggregate_consecutive, _remove_terminal_segment_gaps, _cigar_from_op_tuples, _op_tuples_from_cigar"],
        bounds="every pairwise trace of 1..4 (1..5) columns {M,I,D} x clipped segment start 0..2 / end 0..1 x reference offset {0,3} x all 16 combinations of include_terminal_gaps / distinguish_matches / hard_clip / intron: CIGAR text equals an independently built string and parses back to the same trace (string and tuple form)"),
